@@ -261,13 +261,13 @@ def build(spec, m, objs=None, domain_factory=None):
     V = {}
 
     def mk_domain(v):
-        items = list(v["vals"]) if v["type"] == "int" else [objs[i] for i in v["dom"]]
+        items = list(v["vals"]) if v["type"] in ("int", "obj") else [objs[i] for i in v["dom"]]
         if domain_factory is not None:
             return domain_factory(v, items)
         return iter(items) if v["kind"] == "gen" else items
 
     def mk_var(v):
-        T = int if v["type"] == "int" else getattr(m, v["type"])
+        T = int if v["type"] == "int" else object if v["type"] == "obj" else getattr(m, v["type"])
         return E.let(T, mk_domain(v), name=v["name"])
 
     def bt(t):
@@ -411,7 +411,7 @@ def oracle(spec, m, objs=None, mode="total", unknown_vars=()):
                     out.append(o)
             return out
         v = base[name]
-        if v["type"] == "int":
+        if v["type"] in ("int", "obj"):
             return list(v["vals"])
         T = getattr(m, v["type"])
         return [objs[i] for i in v["dom"] if isinstance(objs[i], T)]
@@ -601,7 +601,7 @@ def empty_range_vars(spec, m, objs=None):
     out = set()
     allv = list(spec["vars"]) + [d["var"] for d in spec.get("derived", []) if d["kind"] == "sub"]
     for v in allv:
-        if v["type"] == "int":
+        if v["type"] in ("int", "obj"):
             if not v["vals"]:
                 out.add(v["name"])
             continue
